@@ -206,7 +206,7 @@ func smallStreams() (map[string][]byte, []string) {
 func propC10() *harness.Prop {
 	return &harness.Prop{
 		ID:             "C10",
-		Rule:           "rtcmfilter.HandleMessages (the shipped function, in-package harness) under the controlled scheduler with harness-owned stdout, record and display writers whose every Write is a scheduling point. Schedule dimension: 9 small streams x {display,record} in {0,1}^2 x every interleaving of main, reader, framing, fan-out and 1-3 writer goroutines and every source chunking (state-key pruning; deviation bound 1/2 where the unbounded pass is cut). Input dimension: every sequence of <=2 (quick) / <=3 (thorough) segments from a 19-entry menu (valid frames, NMEA, UBX, junk with 0xD3, lone D3, bad leaders, truncations, corrupted frames) with display and record on, default schedule. plus scenarios in which single writes to the display log fail, and a stalled-writer scenario (24 distinct frames, the output writer blocks in its first Write until a timer thread lets it go, by default as late as possible), and scenarios in which the input ends in a hard read error instead of EOF, with attentive and with stalled writers (every frame read before the failure is still owed). Oracle at quiescence: stdout == concatenation of the valid frames of the sequential framing, record identical, display text == one String() entry per delivered message. Non-trivial = distinct schedule trace",
+		Rule:           "rtcmfilter.HandleMessages (the shipped function, in-package harness) under the controlled scheduler with harness-owned stdout, record and display writers whose every Write is a scheduling point. Schedule dimension: 9 small streams x {display,record} in {0,1}^2 x every interleaving of main, reader, framing, fan-out and 1-3 writer goroutines and every source chunking (state-key pruning; deviation bound 1/2 where the unbounded pass is cut). Input dimension: every sequence of <=2 (quick) / <=3 (thorough) segments from a 19-entry menu (valid frames, NMEA, UBX, junk with 0xD3, lone D3, bad leaders, truncations, corrupted frames) with display and record on, default schedule. plus scenarios in which single writes to the display log fail, and a stalled-writer scenario (24 distinct frames, the output writer blocks in its first Write until a timer thread lets it go, by default as late as possible), and scenarios in which the input ends in a hard read error instead of EOF, with attentive and with stalled writers (every frame read before the failure is still owed), and scenarios with a non-zero EOF tolerance configured and a source that reports EOF twice between frames or inside a frame and then carries on. Oracle at quiescence: stdout == concatenation of the valid frames of the sequential framing, record identical, display text == one String() entry per delivered message. Non-trivial = distinct schedule trace",
 		Assumptions:    []string{"dailylogger.New is redirected at build time to an in-memory sink (file naming and rotation belong to the go-tools dependency)", "which segments are 'valid frames as delimited by the framing rules' is taken from the implementation's own sequential framing filtered by the independent IsFrame predicate (differential oracle), as the statement defines", "judged at quiescence; whether the output is complete when the call returns is C11"},
 		Scenarios:      scenariosC10,
 		QuickBudget:    60 * time.Second,
@@ -328,6 +328,34 @@ func scenariosC10(tier string) []*mcrt.Scenario {
 				stream := streams[sn]
 				scs = append(scs, &mcrt.Scenario{Name: fmt.Sprintf("hard-read-error-at-end stream=%s stalled-writer=%v record=%v", sn, gated, rcd), Bound: bound, Horizon: 50000, Prune: true, Full: true,
 					Body: bodyE(stream, false, rcd, false, nil, gated, eio), Check: checkC10(stream)})
+			}
+		}
+	}
+	// a non-zero EOF tolerance in the configuration and a source that goes quiet
+	// once or twice (between frames, inside a frame) and then carries on: the
+	// output is that of the uninterrupted stream
+	for _, sn := range []string{"frame+frame", "frame+junk+frame"} {
+		stream := streams[sn]
+		for _, at := range []int{3, len(streams["frame"]), len(stream) - 2} {
+			for _, gated := range []bool{false, true} {
+				at, gated := at, gated
+				scs = append(scs, &mcrt.Scenario{Name: fmt.Sprintf("quiet-source stream=%s pause-at=%d stalled-writer=%v", sn, at, gated), Bound: 1, Horizon: 50000, Prune: true,
+					Body: func(x *mcrt.X) {
+						var gate chan struct{}
+						if gated {
+							gate = make(chan struct{})
+							mcrt.GoLow("gate-timer", func() { mcrt.Sleep(time.Second); mcrt.Close(gate) })
+						}
+						obs := &obsT{out: &hsink.Sink{Name: "stdout", Gate: gate}, sinks: &hsink.Sinks{},
+							src: &hsink.ChunkReader{Data: stream, Reset: true, Sizes: []int{0, 1}, PauseAt: map[int]int{at: 2}}, display: false, record: true}
+						x.Data = obs
+						mcrt.NewDailySink = obs.sinks.New
+						cfg := &jsonconfig.Config{RecordMessages: true, MessageLogDirectory: "logs", TimeoutOnEOFMilliSeconds: 50, WaitTimeOnEOFMilliseconds: 10}
+						HandleMessages(t0, obs.src, obs.out, cfg)
+						obs.atReturn = append([]byte{}, obs.out.Buf...)
+						mcrt.Note(uint64(len(obs.atReturn)))
+						obs.returned = true
+					}, Check: checkC10(stream)})
 			}
 		}
 	}
